@@ -28,7 +28,7 @@ DIRECT = {'SIN': 'sin', 'COS': 'cos', 'TAN': 'tan', 'ATAN': 'atan', 'SINH': 'sin
           'ASINH': 'asinh', 'SQRT': 'sqrt', 'LN': 'log', 'ASIN': 'asin', 'ACOS': 'acos', 'ATANH': 'atanh'}
 OPERAND_TAGS = ['int', 'float', 'bool', 'numtext', 'negnumtext', 'textforms']
 # other spellings of numbers that float() accepts: concrete texts (a finite enumeration, flagged as such in the bounds)
-TEXT_FORMS = ['1e4', '-2.5E-3', '1.5e-07', ' 7 ', '+3', '.5', '5.', '1_0', '00012', '2.50']
+TEXT_FORMS = ['1e4', '-2.5E-3', '1.5e-07', ' 7 ', '+3', '.5', '5.', '-.25', '00012', '2.50', '+.5', '.5e1']
 
 
 def T(x):
@@ -67,8 +67,8 @@ class Domains(Harness):
           'or for non-numeric text'
     functions = tuple('mathtrig.' + f for f in UNARY) + ('utils.parse_number', 'helper.number.to_number', 'Parser.parse')
     bounds = 'argument: any integer / real in +-10^6 (reals equal to, or at least 2^-30 away from, the domain boundaries -1, 0, 1), ' \
-             'logical, numeric text of 2 digits with optional minus, 10 further concrete spellings (exponent forms, padding, sign, ' \
-             'underscore), text of 2 letters'
+             'logical, numeric text of 2 digits with optional minus, 12 further concrete spellings (exponent forms, padding, sign, ' \
+             'leading / trailing decimal point), text of 2 letters'
     outside = ('the numeric value returned inside the domain (libm; no SMT theory) and every identity between the functions',
                'arguments so large that the float result overflows')
     stubs = ('math.* = uninterpreted function + documented domain contract (ValueError / ZeroDivisionError outside it)',)
@@ -160,23 +160,31 @@ class PresentValue(Harness):
     prop = 'C16'
     doc = 'PV satisfies the annuity equation pv(1+r)^n + pmt(1+r*type)((1+r)^n-1)/r + fv = 0 (linear form at r = 0) in exact real arithmetic'
     functions = ('financial.PV',)
-    bounds = 'periods n = 0..4, type 0/1, rate any real > -1 (split: rate = 0 / rate != 0), payment and future value any reals; ' \
+    bounds = 'periods n = 0..6 (thorough 0..8) with the power as repeated multiplication, and any real n in [0, 400] with the power (1+r)^n as ' \
+             'one uninterpreted positive value; type 0/1, rate any real > -1 (split: rate = 0 / rate != 0), payment and future value any reals; ' \
              'floating-point rounding is outside the claim (operations taken as exact reals; z3 non-linear real arithmetic)'
-    outside = ('rounding error of the float evaluation', 'n > 4', 'non-integer n')
+    outside = ('rounding error of the float evaluation', 'the value of (1+r)^n for non-integer n (C library)')
     solver_timeout_ms = {'quick': 60000, 'thorough': 120000}
 
     def cases(self, tier):
-        return [{'n': n, 'type': t, 'zero': z} for n in range(0, 5) for t in (0, 1) for z in (False, True)]
+        out = [{'n': n, 'type': t, 'zero': z} for n in range(0, 7 if tier == 'quick' else 9) for t in (0, 1) for z in (False, True)]
+        # any real number of periods (also non-integer): the power (1+r)^n is then one uninterpreted positive value
+        out += [{'n': 'real', 'type': t, 'zero': z} for t in (0, 1) for z in (False, True)]
+        return out
 
     def build(self, e, p):
         e.exact_floats = True
         rate = 0 if p['zero'] else e.fresh_real('r')
         if not p['zero']:
             e.add(rate.r > -1, rate.r != 0)
-        return {'rate': rate, 'pmt': e.fresh_real('pmt'), 'fv': e.fresh_real('fv')}
+        d = {'rate': rate, 'pmt': e.fresh_real('pmt'), 'fv': e.fresh_real('fv')}
+        if p['n'] == 'real':
+            d['n'] = e.fresh_real('n', 0, 400)
+        return d
 
     def run(self, env, inp, p):
-        return self.parse_with(env, 'PV(vr,vn,vp,vf,vt)', {'vr': inp['rate'], 'vn': p['n'], 'vp': inp['pmt'], 'vf': inp['fv'], 'vt': p['type']})
+        n = inp['n'] if p['n'] == 'real' else p['n']
+        return self.parse_with(env, 'PV(vr,vn,vp,vf,vt)', {'vr': inp['rate'], 'vn': n, 'vp': inp['pmt'], 'vf': inp['fv'], 'vt': p['type']})
 
     def post(self, env, inp, out, p):
         if not ok_result(out) or not isnum(out['result']):
@@ -184,6 +192,8 @@ class PresentValue(Harness):
         pv = _floatval_nofork(out['result'])
         pmt, fv = _floatval_nofork(inp['pmt']), _floatval_nofork(inp['fv'])
         n, t = p['n'], p['type']
+        if n == 'real':
+            n = _floatval_nofork(inp['n']) if env.symbolic else float(inp['n'])
         if p['zero']:
             lhs = pv + pmt * n + fv
             if not env.symbolic:
@@ -191,9 +201,13 @@ class PresentValue(Harness):
                 return abs(lhs_v) <= 1e-6 * (1 + abs(float(inp['pmt']) * n) + abs(float(inp['fv'])))
             return mkbool(z3.simplify(lhs == 0))
         r = _floatval_nofork(inp['rate'])
-        g = R(1)
-        for _ in range(n):
-            g = g * (1 + r)
+        if p['n'] == 'real' and env.symbolic:
+            from ..models import uf_real
+            g = uf_real('pow', z3.simplify(1 + r), n)
+        else:
+            g = R(1)
+            for _ in range(n if p['n'] != 'real' else 0):
+                g = g * (1 + r)
         if not env.symbolic:
             rv, pm, f, pvv = float(inp['rate']), float(inp['pmt']), float(inp['fv']), float(out['result'])
             gv = (1 + rv) ** n
